@@ -91,12 +91,14 @@ def make_scenario(wk, xk, wmv, xmv):
     if wl.kind == "fixed" and xl.kind == "fixed":
       s.hints.append(wl.n + xl.n)
     if ol.kind == "fixed":
+      sh_o = a.ex + b.ex + ol.f
       for l in (wl, xl):
         if l.kind == "fixed":
-          s.hints.extend([ol.n - l.n, ol.f - l.f])
+          s.hints.extend([ol.n - l.n, ol.f - l.f, l.n + sh_o])
     cl = s.info.get("mvexps", [])
     if len(cl) == 2:
       s.hints.extend([cl[0] + cl[1], cl[0] + cl[1] - 1])
+    s.splits = [a.mant >= 0, b.mant >= 0]
     s.claim("fits_prod", goal)
     return s
   return scenario
